@@ -7,6 +7,7 @@
      parse   text; k, f = fields of create_from_str(text) (or cls, mro); rk, r = str of that identifier (or rcls)
      derive  which ("prj" | "dev"), vals = 7 cells [has, b]; k, f (or cls, mro); ck ("set" | "unset" | "raise"), ctext, ccls:
              the Configuration / DeviceSettings comment after Bf3File.derive_comments_from_config
+     obj     an identifier object after attribute assignments (see ObjVerdict)
    identifiers in events: [c, p, d, v, hn, name] with None = -1 and hn = 1 iff name is not None. *)
 EXTENDS ConfigId, Json, IOUtils, TLC
 Trace == ndJsonDeserialize(IOEnv.TRACE_FILE)
@@ -15,6 +16,16 @@ VARIABLE i
 Of(r) == Id(r.c, r.p, r.d, r.v, IF r.hn = 1 THEN Name(r.name) ELSE NoName)
 InSeq(e, s) == \E j \in DOMAIN s : s[j] = e
 
+\* create_from_str(str(id)): what the specification parses from that text; the identifier itself if it is in the domain
+ParseOfPrinted(ev, f) ==
+    LET sp == ParseId(ev.s) IN
+    IF ~sp.ok THEN (IF ev.pk = "raise" /\ InSeq("ConfigIdFormatError", ev.pmro) THEN
+                       (IF InDomain(f) THEN "roundtrip-own-text-unparsable" ELSE "ok")
+                    ELSE "unparsable-text-not-rejected")
+    ELSE IF ev.pk # "ok" THEN "parse-raised"
+    ELSE IF Of(ev.g) # sp.id THEN "parse-result"
+    ELSE IF InDomain(f) /\ Of(ev.g) # f THEN "roundtrip-differs"
+    ELSE "ok"
 IdVerdict(ev) ==
     LET a == Of(ev.a)
         f == Of(ev.f)
@@ -23,14 +34,20 @@ IdVerdict(ev) ==
         ELSE IF ~Printable(f) THEN "ok"                                   \* outside the domain of the text form: not judged
         ELSE IF ev.sk # "ok" THEN "str-raised"
         ELSE IF ev.s # PrintId(f) THEN "str-text"
-        ELSE LET sp == ParseId(ev.s) IN
-             IF ~sp.ok THEN (IF ev.pk = "raise" /\ InSeq("ConfigIdFormatError", ev.pmro) THEN
-                                (IF InDomain(f) THEN "roundtrip-own-text-unparsable" ELSE "ok")
-                             ELSE "unparsable-text-not-rejected")
-             ELSE IF ev.pk # "ok" THEN "parse-raised"
-             ELSE IF Of(ev.g) # sp.id THEN "parse-result"
-             ELSE IF InDomain(f) /\ Of(ev.g) # f THEN "roundtrip-differs"
-             ELSE "ok"
+        ELSE ParseOfPrinted(ev, f)
+\* an identifier OBJECT looked at (again) after the caller assigned its public attributes: f = its CURRENT attribute values
+\* (raw: an assigned 9999 stays 9999), ds / bs, s = str, ck / cs = cfgid_str ("ok" text | "none" | "raise"), g = parse of s,
+\* eq = 1 iff it equals (==, not !=, same repr) a fresh object carrying the same attribute values
+ObjVerdict(ev) ==
+    LET f == Of(ev.f) IN
+    IF (ev.ds = 1) # IsDevSettings(f) \/ (ev.bs = 1) # IsScheme(f) THEN "form-flags"
+    ELSE IF ev.eq # 1 THEN "comparison-or-repr-not-by-current-fields"
+    ELSE IF ~Printable(f) THEN "ok"
+    ELSE IF ev.sk # "ok" THEN "str-raised"
+    ELSE IF ev.s # PrintId(f) THEN "str-text"
+    ELSE IF IsScheme(f) /\ (ev.ck # "ok" \/ ev.cs # NumHead(f)) THEN "cfgid-text"
+    ELSE IF ~IsScheme(f) /\ ev.ck # "none" THEN "cfgid-text"
+    ELSE ParseOfPrinted(ev, f)
 ParseVerdict(ev) ==
     LET sp == ParseId(ev.text) IN
     IF ~sp.ok THEN (IF ev.k = "raise" /\ InSeq("ConfigIdFormatError", ev.mro) THEN "ok"
@@ -61,7 +78,7 @@ DeriveVerdict(ev) ==
     ELSE IF Of(ev.f) # sd.id THEN "derive-fields"
     ELSE CommentVerdict(ev, sd)
 Verdict(ev) == IF ev.op = "id" THEN IdVerdict(ev) ELSE IF ev.op = "parse" THEN ParseVerdict(ev)
-               ELSE IF ev.op = "derive" THEN DeriveVerdict(ev) ELSE "unknown-op"
+               ELSE IF ev.op = "derive" THEN DeriveVerdict(ev) ELSE IF ev.op = "obj" THEN ObjVerdict(ev) ELSE "unknown-op"
 
 Init == i = 1
 Next == /\ i <= Len(Trace)
